@@ -184,9 +184,10 @@ func (r *qLogReader) seekRecord(ctx context.Context, olderThan time.Time) (err e
 	}
 
 	err = r.seekTS(ctx, olderThan.UnixNano())
-	if err == nil {
+	if err == nil && r.seekFound {
 		// Read to the next record, because we only need the one that goes
-		// after it.
+		// after it.  If there is no record with this exact timestamp, the
+		// reader is already positioned on the newest of the older records.
 		_, err = r.ReadNext()
 	}
 
